@@ -1,6 +1,7 @@
 mod common;
 mod c11;
 mod c15;
+mod c16;
 mod world;
 mod rules;
 mod ir;
@@ -67,6 +68,7 @@ fn main() {
         "C05" => dp::run_c05(&outdir, seed, thorough),
         "C01" => dp::run_c01(&outdir, seed, thorough),
         "C09" => dp::run_c09(&outdir, seed, thorough),
+        "C16" => c16::run(&outdir, seed, thorough),
         "C04" => dp::run_c04(&outdir, seed, thorough),
         "GEN-FNMETA" => { if let Err(e) = c14::generate(&outdir) { eprintln!("{}", e); std::process::exit(1); } return; }
         "GEN-RULES" => { if let Err(e) = rules::generate(&outdir) { eprintln!("{}", e); std::process::exit(1); } return; }
